@@ -196,8 +196,9 @@ def run(out, replay_path=None):
         for handler in (True, False):
             for (A, D, P, Q) in bounds_for(out.tier, cap_mode):
                 jobs.append((cap_mode, handler, A, D, P, Q, pid, 3000000 if thorough else 600000, 'ch'))
-    if pid in ('C08', 'C09', 'C11'):
-        # capacity 0: crossbeam's rendezvous flavour (C10 is stated for capacities >= 1 only)
+    if pid in ('C08', 'C09', 'C11', 'C15'):
+        # capacity 0: crossbeam's rendezvous flavour (C10 is stated for capacities >= 1 only); C15: an emit is refused
+        # there whenever the worker is not parked in recv(), with nothing a pre-check could see
         for handler in ((True, False) if thorough else (True,)):
             jobs.append(('rendezvous', handler, 3, 24 if thorough else 20, 1, 0, pid, 3000000 if thorough else 600000, 'ch'))
     if thorough:
